@@ -22,11 +22,24 @@ Streams (every run)
   wild  : random programs that need not be legal (several bare statements, attribute and
           statement on the same entity, `protected ::` statements, repeated access words,
           constructor interfaces, components after CONTAINS ...): correspondence only.
+
+Spelling (round 4).  "An access statement naming the entity" presupposes that the name in the statement and the
+name in the declaration are recognised as the same identifier.  Every case therefore carries a *spelling*
+(`decorate`): each entity-decl is written name / NAME / Name, with blanks, array-spec, coarray-spec, char-length,
+initialisation after it (`Grid (10, 10) = 0`, `c *4`, `co [*]`), each name list with blanks around the commas and
+now and then a continuation line, each `operator(+)` / `assignment(=)` with blanks between its tokens.  The text of
+these three lists goes to the Lean model as it is written (`Ford.Access.keyed`: the model derives the `attr_dict`
+keys with its own `paren_split` / blank removal / name cut, tables measured on the code under test) and is stored
+in the replay.  Everything else that surrounds an access word is varied by the renderer: type-specs
+(`double precision`, `character*4`, `type(x)`), other attributes with parentheses and commas, `::` or none,
+procedure prefixes and suffixes (`pure elemental`, `module`, `bind(C, name=..)`), `procedure(iface), deferred`
+bindings, generic bindings named by an operator, several program units in one file.
 """
 from __future__ import annotations
 
 import itertools
 import random
+import re
 from pathlib import Path
 
 from . import common
@@ -37,7 +50,8 @@ PCODE = {"public": "u", "private": "r", "protected": "t"}
 KINDS = ["variable", "parameter", "type", "subroutine", "function", "generic", "abstract", "operator",
          "component", "binding", "specific"]
 OPERATORS = ["operator(+)", "operator(-)", "operator(*)", "operator(.dot.)", "operator(==)", "assignment(=)",
-             "operator(.x.)", "operator(<)"]
+             "operator(.x.)", "operator(<)", "operator(//)", "operator(/=)", "operator(.not.)", "operator(>=)",
+             "read(formatted)", "write(unformatted)"]
 
 F_LATE = "C04-late-bare-private"
 F_PROT_PRIV = "C04-protected-overrides-private"
@@ -47,6 +61,7 @@ F_CTOR_STMT = "C04-constructor-access-statement-ignored"
 F_SAME_NAME = "C04-self-named-generic-access-statement-ignored"
 VARIANT = "p"  # set by run(): what probe_variant found in the code under test
 F_CTOR_ATTR = "C04-constructor-export-before-correlate"
+F_GSPEC = "C04-generic-spec-blank-spelling"
 TABS = (("procs", "pub_procs"), ("vars", "pub_vars"), ("types", "pub_types"), ("absints", "pub_absints"))
 TAB_OF = {"var": "vars", "type": "types", "absiface": "absints", "func": "procs", "sub": "procs", "iface": "procs",
           "spec": "procs"}
@@ -85,8 +100,28 @@ def enc_body(body):
     return "|".join(out)
 
 
-def enc_stmt(s):
+def hexs(t):
+    """the text as the parser sees it: a continued list is one line (the continuation marks are layout), and every
+    character literal has been replaced by a numbered placeholder (`"0"`, `"1"` ...) before a statement is looked at"""
+    t = re.sub(r"&\s*\n\s*&?", "", t)
+    k = itertools.count()
+    t = re.sub(r"'[^']*'|\"[^\"]*\"", lambda m: f'"{next(k)}"', t)
+    return t.encode("ascii").hex()
+
+
+def enc_stmt(s, sp=None):
+    """abstract statement for the Lean side.  With a spelling `sp` (see `decorate`) the three statements whose
+    *text* decides under which key FORD files the names - a declaration's entity list, the name list of an
+    attribute statement, the generic-spec of an interface statement - are sent as they are written (hex), and the
+    model derives the keys itself (`Ford.Access.keyed`)."""
     k = s[0]
+    if sp is not None:
+        if k == "access":
+            return "Q:" + acode(s[1]) + ":" + hexs(sp)
+        if k == "var":
+            return "W:" + hexs(sp[1]) + ":" + "".join(acode(a) for a in s[2])
+        if k == "iface" and s[1] == "generic":
+            return "J:" + hexs(sp) + ":" + ",".join(s[3]) + ":" + ",".join(s[4] if len(s) > 4 else [])
     if k == "bare":
         return "B:" + PCODE[s[1]]
     if k == "access":
@@ -107,6 +142,13 @@ def enc_stmt(s):
 
 # ---------------------------------------------------------------------------
 # rendering to Fortran
+#
+# Two layers.  `decorate` fixes the *spelling* of every name occurrence whose text reaches FORD's name keying (the
+# entity list of a type declaration statement, the name list of an attribute statement, the generic-spec of an
+# interface statement): letter case, blanks, array-spec / coarray-spec / char-length / initialisation after the
+# name, `operator (+)` with blanks.  The spelling is part of the case (stored in replays, sent to the Lean model).
+# `render` lays the statements out and varies everything else (type-specs, attribute spellings, `::`, procedure
+# prefixes, continuation lines).
 # ---------------------------------------------------------------------------
 
 
@@ -125,11 +167,159 @@ def sp(rng):
 
 def rname(rng, n):
     """names are matched case-insensitively: vary the case of declared / referenced names"""
-    return n.upper() if rng.random() < 0.15 else n
+    r = rng.random()
+    if r < 0.12:
+        return n.upper()
+    if r < 0.18:
+        return n.capitalize()
+    return n
+
+
+def gap(rng):
+    """blanks between the tokens of one entity / name (legal anywhere between tokens in free form)"""
+    return rng.choice(["", "", "", " ", " ", "  "])
+
+
+def spell_generic(rng, n):
+    """generic-spec of an interface statement / of an access statement: identifiers vary in case; in
+    `operator(.op.)` / `assignment(=)` blanks may stand between the tokens `operator`, `(`, the operator, `)`"""
+    if "(" not in n:
+        return rname(rng, n)
+    kw, op = n[:n.index("(")], n[n.index("(") + 1:-1]
+    if rng.random() < 0.2:
+        op = op.upper()
+    r = rng.random()
+    if r < 0.62:
+        return f"{rcase(rng, kw)}({op})"
+    if r < 0.8:
+        return f"{rcase(rng, kw)} ({op})"
+    if r < 0.9:
+        return f"{rcase(rng, kw)}( {op} )"
+    return f"{rcase(rng, kw)} ( {op} )"
+
+
+ARRAY_SPECS = ["(2)", "(2)", "(2, 3)", "(2,3)", "( 2 )", "(0:1)", "(2,2, 2)"]
+
+
+def spell_decl(rng, n, is_param, is_char, allow_init=True, deferred=False):
+    """one entity-decl: object-name [(array-spec)] [lbracket coarray-spec rbracket] [* char-length] [initialization]"""
+    t = rname(rng, n)
+    r = rng.random()
+    shape = None
+    if deferred:
+        if r < 0.5:
+            t += gap(rng) + rng.choice(["(:)", "(:, :)", "( : )"])
+    elif r < 0.45:
+        shape = rng.choice(ARRAY_SPECS)
+        t += gap(rng) + shape
+    elif r < 0.52 and not is_param:
+        t += gap(rng) + rng.choice(["[*]", "[ * ]", "[2, *]"])
+        allow_init = False
+    if is_char and rng.random() < 0.5:
+        t += gap(rng) + "*" + gap(rng) + rng.choice(["4", "(4)", "( 4 )"])
+    if is_param or (allow_init and not deferred and rng.random() < 0.25):
+        if is_char:
+            v = rng.choice(['"ab"', "'a,b'", '"x = y :: z"', "'(/'", '"private"'])
+        elif shape is not None and shape.replace(" ", "") == "(2)":
+            v = rng.choice(["[1, 2]", "(/ 1, 2 /)", "[ 1,2 ]", "0", "(/1,2/)"])
+        elif shape is not None:
+            v = rng.choice(["0", "1"])
+        else:
+            v = rng.choice(["1", "2 * 3", "-1", "max(1, 2)", "kind(1)"])
+        t += gap(rng) + "=" + gap(rng) + v
+    return t
+
+
+def join_list(rng, items, cont_ok=True):
+    """a comma-separated list; blanks around the commas; now and then continued on the next line"""
+    out = ""
+    for i, it in enumerate(items):
+        if i:
+            out += rng.choice(["", "", " "]) + ","
+            if cont_ok and rng.random() < 0.06:
+                out += " &\n      " + rng.choice(["", "& ", "&"])
+            else:
+                out += sp(rng)
+        out += it
+    return out
+
+
+CHAR_TYPES = ["character(len=4)", "character(4)", "character*4", "character", "CHARACTER(LEN=4)", "character (len = 4)"]
+NUM_TYPES = ["integer", "integer", "real", "real(kind=8)", "real (8)", "logical", "complex", "double precision",
+             "integer(kind = 4)", "integer*4", "INTEGER", "Real", "type(c04_ext)", "TYPE (c04_ext)"]
+
+
+def spell_var(rng, s):
+    """(type-spec, entity list) of a type declaration statement"""
+    names, attrs, is_param = s[1], s[2], s[3]
+    deferred = any(a in ("allocatable", "pointer") for a in attrs)
+    is_char = rng.random() < 0.2
+    if is_param:
+        ty = rng.choice(["character(len=*)", "character(*)", "character(len=4)"]) if is_char else \
+            rng.choice(["integer", "integer", "INTEGER", "integer(kind=4)"])
+    else:
+        ty = rng.choice(CHAR_TYPES) if is_char else rng.choice(NUM_TYPES)
+    if ty.lower().startswith("type") and (deferred or "protected" in attrs):
+        pass
+    decls = [spell_decl(rng, n, is_param, is_char, allow_init="type" not in ty.lower(), deferred=deferred) for n in names]
+    return [ty, join_list(rng, decls)]
+
+
+def split_top(t):
+    """the items of a comma-separated list as written (commas inside parentheses / brackets do not separate;
+    continuation marks are layout)"""
+    t = re.sub(r"&\s*\n\s*&?", "", t)
+    out, depth, cur = [], 0, ""
+    for ch in t:
+        if ch in "([":
+            depth += 1
+        elif ch in ")]":
+            depth -= 1
+        if ch == "," and depth == 0:
+            out.append(cur)
+            cur = ""
+        else:
+            cur += ch
+    return out + [cur]
+
+
+def decorate(rng, stmts):
+    """the spelling of every name occurrence that reaches FORD's name keying; list parallel to `stmts`"""
+    out = []
+    for s in stmts:
+        if s[0] == "var":
+            out.append(spell_var(rng, s))
+        elif s[0] == "access":
+            out.append(join_list(rng, [spell_generic(rng, n) for n in s[2]]))
+        elif s[0] == "iface" and s[1] == "generic":
+            out.append(spell_generic(rng, s[2]))
+        else:
+            out.append(None)
+    return out
+
+
+def attr_word(rng, a):
+    """spelling of one attribute of a declaration: access words in any case; a few others have variants"""
+    if a in PCODE:
+        return rcase(rng, a)
+    if a == "dimension(2)":
+        return rng.choice(["dimension(2)", "dimension(2, 3)", "DIMENSION( 2,3 )", "dimension (2)"])
+    if a == "bind(c)":
+        return rng.choice(["bind(c)", "bind(C)", "bind (c)"])
+    if a == "extends(c04_base)":
+        return rng.choice(["extends(c04_base)", "extends (c04_base)", "EXTENDS( c04_base )"])
+    if a in ("save", "target", "abstract", "nopass", "non_overridable", "volatile", "asynchronous", "allocatable",
+             "pointer", "contiguous"):
+        return rcase(rng, a)
+    return a
 
 
 def attr_text(rng, attrs):
-    return "".join("," + sp(rng) + (rcase(rng, a) if a in PCODE else a) + sp(rng) for a in attrs)
+    return "".join(rng.choice(["", "", " "]) + "," + sp(rng) + attr_word(rng, a) for a in attrs) \
+        + (rng.choice(["", " "]) if attrs else "")
+
+
+COMP_TYPES = ["integer", "real", "real(8)", "logical", "character(len=4)", "type(c04_ext)", "INTEGER", "complex"]
 
 
 def render_body(rng, body, tname, ind="    "):
@@ -140,55 +330,106 @@ def render_body(rng, body, tname, ind="    "):
         elif s[0] == "contains":
             L.append(ind[:-2] + rcase(rng, "contains"))
         elif s[0] == "comp":
-            ty = rng.choice(["integer", "real", "real(8)", "logical", "character(len=4)"])
-            names = ("," + sp(rng)).join(rname(rng, n) for n in s[1])
-            if s[2] or rng.random() < 0.7:
+            ty = rng.choice(COMP_TYPES)
+            deferred = any(a in ("allocatable", "pointer") for a in s[2])
+            is_char = ty.startswith("character")
+            decls = [spell_decl(rng, n, False, is_char, allow_init=not ty.lower().startswith("type"), deferred=deferred)
+                     for n in s[1]]
+            names = join_list(rng, decls)
+            if s[2] or "=" in names or rng.random() < 0.7:
                 L.append(f"{ind}{ty}{attr_text(rng, s[2])}{sp(rng)}::{sp(rng)}{names}")
             else:
                 L.append(f"{ind}{ty} {names}")
         elif s[0] == "bind":
             if s[1]:
-                L.append(f"{ind}generic{attr_text(rng, s[3])} :: {s[2][0]} => impl_{tname}")
+                what = spell_generic(rng, s[2][0])
+                L.append(f"{ind}{rcase(rng, 'generic')}{attr_text(rng, s[3])}{sp(rng)}::{sp(rng)}{what} => impl_{tname}")
             else:
-                tgt = [n + (f" => impl_{tname}" if rng.random() < 0.5 or len(s[2]) == 1 else "") for n in s[2]]
-                dc = " :: " if s[3] or len(s[2]) > 1 or rng.random() < 0.7 else " "
-                L.append(f"{ind}procedure{attr_text(rng, s[3])}{dc}{', '.join(tgt)}")
+                single = len(s[2]) == 1
+                tgt = [rname(rng, n) + (f"{sp(rng)}=>{sp(rng)}impl_{tname}" if rng.random() < 0.5 or single else "") for n in s[2]]
+                kw = rcase(rng, "procedure")
+                if single and "=>" not in tgt[0] and rng.random() < 0.15:
+                    # deferred binding with an interface name
+                    kw += rng.choice(["(c04_aif)", " (c04_aif)"])
+                    attrs = list(s[3])
+                    attrs.insert(rng.randint(0, len(attrs)), "deferred")
+                    L.append(f"{ind}{kw}{attr_text(rng, attrs)}{sp(rng)}::{sp(rng)}{tgt[0]}")
+                    continue
+                if s[3] or len(s[2]) > 1 or any("=>" in t for t in tgt) or rng.random() < 0.7:
+                    dc = f"{sp(rng)}::{sp(rng)}"  # C772: `::` is required when `=> procedure-name` appears
+                else:
+                    dc = " "
+                L.append(f"{ind}{kw}{attr_text(rng, s[3])}{dc}{join_list(rng, tgt, cont_ok=False)}")
         else:
             L.append(ind + s[1])
     return L
 
 
-def render(rng, scope, name, stmts, parent="mparent"):
+SUB_PREFIX = ["", "", "", "pure ", "recursive ", "elemental ", "impure elemental ", "PURE "]
+FUN_PREFIX = ["", "", "", "pure ", "recursive ", "elemental ", "pure elemental ", "integer ", "real(kind=8) ",
+              "pure integer ", "INTEGER "]
+
+
+def render_sub(rng, ind, name, module=False, body=True, bind_name=True):
+    """a subroutine (module procedure or interface body) in one of its legal spellings"""
+    pre = rng.choice(SUB_PREFIX) + ("module " if module else "")
+    args = rng.choice(["(x)", " (x)", "( x )"])
+    suffix = rng.choice(["", "", "", " bind(c)", f' bind(C, name="c_{name}")' if bind_name else " BIND(C)"]) \
+        if not module and "elemental" not in pre else ""
+    L = [f"{ind}{pre}{rcase(rng, 'subroutine')} {rname(rng, name)}{args}{suffix}", f"{ind}  integer{', intent(inout)' if pre.strip() else ''} :: x"]
+    if body:
+        L.append(f"{ind}  x = 1")
+    L.append(ind + rng.choice(["end subroutine", f"end subroutine {name}", "END SUBROUTINE"]))
+    return L
+
+
+def render_fun(rng, ind, name, module=False, body=True):
+    pre = rng.choice(FUN_PREFIX) + ("module " if module else "")
+    typed = any(w in pre.lower() for w in ("integer", "real"))
+    args = rng.choice(["(x)", " (x)", "( x )"])
+    if typed:
+        L = [f"{ind}{pre}function {rname(rng, name)}{args}", f"{ind}  integer, intent(in) :: x"]
+        if body:
+            L.append(f"{ind}  {name} = x")
+    else:
+        res = rng.choice([" result(r)", " result (r)", " RESULT(r)"])
+        suffix = rng.choice(["", "", " bind(c)"]) if not module and "elemental" not in pre else ""
+        L = [f"{ind}{pre}{rcase(rng, 'function')} {rname(rng, name)}{args}{res}{suffix}", f"{ind}  integer, intent(in) :: x",
+             f"{ind}  integer :: r"]
+        if body:
+            L.append(f"{ind}  r = x")
+    L.append(ind + rng.choice(["end function", f"end function {name}", "END FUNCTION"]))
+    return L
+
+
+def render(rng, scope, name, stmts, parent="mparent", spell=None):
+    if spell is None:
+        spell = decorate(rng, stmts)
     L = []
     L.append(f"module {name}" if scope == "m" else f"submodule ({parent}) {name}")
     ind = "  "
-    for s in stmts:
+    for s, spl in zip(stmts, spell):
         k = s[0]
         if k == "bare":
             L.append(ind + rcase(rng, s[1]))
         elif k == "access":
             w = rcase(rng, s[1]) if s[1] in PCODE else s[1]
-            names = ("," + sp(rng)).join(rname(rng, n) for n in s[2])
             if rng.random() < 0.7:
-                L.append(f"{ind}{w}{sp(rng)}::{sp(rng)}{names}")
+                L.append(f"{ind}{w}{sp(rng)}::{sp(rng)}{spl}")
             else:
-                L.append(f"{ind}{w} {names}")
+                L.append(f"{ind}{w} {spl}")
         elif k == "var":
-            ty = rng.choice(["integer", "real", "real(kind=8)", "logical", "complex"])
+            ty, decls = spl
             attrs = list(s[2])
-            init = ""
             if s[3]:
                 attrs.insert(rng.randint(0, len(attrs)), "parameter")
-                ty = "integer"
-                init = " = 1"
-            names = ("," + sp(rng)).join(rname(rng, n) + init for n in s[1])
-            if attrs or init or rng.random() < 0.7:
-                L.append(f"{ind}{ty}{attr_text(rng, attrs)}{sp(rng)}::{sp(rng)}{names}")
+            if attrs or "=" in decls or rng.random() < 0.7:
+                L.append(f"{ind}{ty}{attr_text(rng, attrs)}{sp(rng)}::{sp(rng)}{decls}")
             else:
-                L.append(f"{ind}{ty} {names}")
+                L.append(f"{ind}{ty} {decls}")
         elif k == "type":
             if s[2] or rng.random() < 0.6:
-                L.append(f"{ind}type{attr_text(rng, s[2])}{sp(rng)}::{sp(rng)}{rname(rng, s[1])}")
+                L.append(f"{ind}{rcase(rng, 'type')}{attr_text(rng, s[2])}{sp(rng)}::{sp(rng)}{rname(rng, s[1])}")
             else:
                 L.append(f"{ind}type {rname(rng, s[1])}")
             L += render_body(rng, s[3], s[1])
@@ -196,36 +437,26 @@ def render(rng, scope, name, stmts, parent="mparent"):
         elif k == "iface":
             kind, iname, procs = s[1], s[2], s[3]
             if kind == "generic":
-                L.append(f"{ind}{rcase(rng, 'interface')} {rname(rng, iname) if '(' not in iname else iname}")
+                L.append(f"{ind}{rcase(rng, 'interface')}{rng.choice([' ', ' ', '  '])}{spl}")
                 for p in procs:
                     if p.startswith("mp_"):
-                        L.append(f"{ind}  module procedure {p[3:]}")
+                        L.append(f"{ind}  {rng.choice(['module procedure', 'module procedure', 'MODULE PROCEDURE', 'module procedure ::', 'procedure'])} {rname(rng, p[3:])}")
                     elif rng.random() < 0.6:
-                        L += [f"{ind}  subroutine {rname(rng, p)}(x)", f"{ind}    integer :: x", f"{ind}  end subroutine {p}"]
+                        L += render_sub(rng, ind + "  ", p, body=False)
                     else:
-                        L += [f"{ind}  function {rname(rng, p)}(x) result(r)", f"{ind}    real :: x", f"{ind}    integer :: r",
-                              f"{ind}  end function {p}"]
-                L.append(ind + rng.choice(["end interface", f"end interface {iname}"]))
+                        L += render_fun(rng, ind + "  ", p, body=False)
+                L.append(ind + rng.choice(["end interface", f"end interface {spl}", "END INTERFACE"]))
             else:
-                L.append(ind + ("abstract interface" if kind == "abstract" else "interface"))
+                L.append(ind + (rcase(rng, "abstract") + " " + rcase(rng, "interface") if kind == "abstract" else rcase(rng, "interface")))
                 for p in procs:
+                    module = kind == "plain" and rng.random() < 0.25  # separate module procedure (F2008 15.6.2.5)
                     if rng.random() < 0.5:
-                        L += [f"{ind}  subroutine {rname(rng, p)}(x)", f"{ind}    integer :: x", f"{ind}  end subroutine"]
+                        L += render_sub(rng, ind + "  ", p, module=module, body=False, bind_name=kind != "abstract")
                     else:
-                        L += [f"{ind}  function {rname(rng, p)}(x) result(r)", f"{ind}    integer :: x, r",
-                              f"{ind}  end function {p}"]
+                        L += render_fun(rng, ind + "  ", p, module=module, body=False)
                 L.append(ind + "end interface")
         elif k == "proc":
-            if s[1]:
-                if rng.random() < 0.5:
-                    L += [f"{ind}function {rname(rng, s[2])}(x, y) result(r)", f"{ind}  integer, intent(in) :: x, y",
-                          f"{ind}  integer :: r", f"{ind}  r = x", f"{ind}end function {s[2]}"]
-                else:
-                    L += [f"{ind}integer function {s[2]}(x, y)", f"{ind}  integer, intent(in) :: x, y",
-                          f"{ind}  {s[2]} = x", f"{ind}end function"]
-            else:
-                L += [f"{ind}subroutine {rname(rng, s[2])}(x)", f"{ind}  integer :: x", f"{ind}  x = 1",
-                      f"{ind}end subroutine {s[2]}"]
+            L += render_fun(rng, ind, s[2]) if s[1] else render_sub(rng, ind, s[2])
         elif k == "contains":
             L.append(rcase(rng, "contains"))
         else:
@@ -436,9 +667,14 @@ def default_at(stmts, pos):
     return d
 
 
-def classify(scope, stmts, key, expected, observed):
+def gspec_key(t):
+    """the key FORD files / looks a generic-spec up under as the code stands: stripped and lower-cased"""
+    return t.strip().lower()
+
+
+def classify(scope, stmts, key, expected, observed, spell=None):
     """Known defect classes of the unchanged tree (decidable descriptions, see known_findings/C04.json).
-    `stmts` is the model view of the program."""
+    `stmts` is the model view of the program, `spell` its spelling (see `decorate`)."""
     if scope != "m":
         return None
     cat = key[0]
@@ -477,6 +713,15 @@ def classify(scope, stmts, key, expected, observed):
         if explicit is None and late_private and expected == "private" and observed == "public":
             return F_LATE
         return None
+    if cat == "iface" and "(" in name and explicit is not None and "g" not in VARIANT and spell is not None \
+            and expected == explicit and observed == default_at(stmts, pos) and not has_prot:
+        # operator(..) / assignment(=): the access statement and the interface statement space the tokens of the
+        # generic-spec differently, so the two keys differ
+        written = gspec_key(spell[pos])
+        in_stmts = [gspec_key(t) for s, q in zip(stmts, spell) if s[0] == "access" and name in s[2]
+                    for n, t in zip(s[2], split_top(q)) if n == name]
+        if in_stmts and all(t != written for t in in_stmts) and all(canon(t) == canon(written) for t in in_stmts):
+            return F_GSPEC
     if cat == "iface" and explicit is not None and "a" not in VARIANT and expected == explicit \
             and observed == default_at(stmts, pos) \
             and any(s[0] == "proc" and s[2] == name for s in stmts) \
@@ -492,7 +737,7 @@ def classify(scope, stmts, key, expected, observed):
     return None
 
 
-def classify_export(scope, stmts, tab, name, key, exp, got):
+def classify_export(scope, stmts, tab, name, key, exp, got, spell=None):
     """class of a wrong entry of an export table.  The tables are filled from the permissions the entities have
     when `_cleanup` runs: (1) the permission itself is wrong (also after correlate) - the same defect, the same
     class; (2) the permission is right after correlate but was not yet when the tables were built - only the
@@ -503,7 +748,7 @@ def classify_export(scope, stmts, tab, name, key, exp, got):
     if e is None or g is None:
         return None
     if e != g:
-        return classify(scope, stmts, key, e, g)
+        return classify(scope, stmts, key, e, g, spell)
     if key[0] == "iface" and tab == "procs":
         for t in stmts:
             if t[0] == "type" and t[1] == name:
@@ -536,6 +781,15 @@ class Names:
         return self.ops.pop() if self.ops else None
 
 
+def gen_generic_binding_name(rng, nm, binds):
+    """a generic binding is named by an identifier or by a generic-spec (`generic :: operator(+) => add`)"""
+    used = {b[2][0] for b in binds if b[0] == "bind"}
+    free = [o for o in ("operator(+)", "operator(.x.)", "assignment(=)", "operator(==)", "operator(<)") if o not in used]
+    if free and rng.random() < 0.3:
+        return rng.choice(free)
+    return nm.new("gb")
+
+
 def gen_type_body(rng, nm, legal=True, target=None):
     """target = None | ("component"|"binding", default, position, attr)"""
     body = []
@@ -548,11 +802,9 @@ def gen_type_body(rng, nm, legal=True, target=None):
         bpriv = None
     comps = []
     for _ in range(rng.randint(0, 2)):
-        a = rng.choice([[], [], ["public"], ["private"], ["pointer"], ["allocatable", "private"]])
+        a = rng.choice([[], [], ["public"], ["private"], ["pointer"], ["allocatable", "private"], ["private", "pointer"],
+                        ["dimension(2)"], ["dimension(2)", "public"], ["private", "dimension(2)"]])
         a = list(a)
-        if "allocatable" in a or "pointer" in a:
-            a = [x for x in a if x not in ("allocatable", "pointer")]
-            a.insert(rng.randint(0, len(a)), rng.choice(["dimension(3)", "kind_dummy"][:1]))
         comps.append(("comp", [nm.new("c") for _ in range(rng.choice([1, 1, 2]))], a))
     if tk == "component":
         tgt = ("comp", [nm.new("c")], [target[3]] if target[3] != "none" else [])
@@ -569,14 +821,16 @@ def gen_type_body(rng, nm, legal=True, target=None):
     binds = []
     if tk == "binding" or rng.random() < 0.6:
         for _ in range(rng.randint(0, 2)):
-            a = list(rng.choice([[], [], ["public"], ["private"], ["nopass"], ["non_overridable", "private"], ["public", "nopass"]]))
+            a = list(rng.choice([[], [], ["public"], ["private"], ["nopass"], ["non_overridable", "private"], ["public", "nopass"],
+                                 ["pass(x)"], ["private", "pass (x)"], ["pass(x)", "public"]]))
             if rng.random() < 0.2:
-                binds.append(("bind", True, [nm.new("gb")], [x for x in a if x in PCODE]))
+                binds.append(("bind", True, [gen_generic_binding_name(rng, nm, binds)], [x for x in a if x in PCODE]))
             else:
                 binds.append(("bind", False, [nm.new("b") for _ in range(rng.choice([1, 1, 1, 2, 3]))], a))
         if tk == "binding":
             generic = rng.random() < 0.2
-            tgt = ("bind", generic, [nm.new("b")], [target[3]] if target[3] != "none" else [])
+            tgt = ("bind", generic, [gen_generic_binding_name(rng, nm, binds) if generic else nm.new("b")],
+                   [target[3]] if target[3] != "none" else [])
             binds.insert(rng.randint(0, len(binds)), tgt)
             d, where = target[1], target[2]
             if d != "none":
@@ -598,13 +852,14 @@ def gen_decl(rng, nm, kind, attr="none", procs=None):
     extra = lambda pool: [rng.choice(pool)] if rng.random() < 0.3 else []
     if kind in ("variable", "parameter"):
         n = nm.new("v" if kind == "variable" else "p")
-        attrs = a + (extra(["save", "target", "dimension(2)"]) if kind == "variable" else [])
+        attrs = a + (extra(["save", "target", "dimension(2)", "volatile", "asynchronous", "allocatable", "bind(c)"])
+                     if kind == "variable" else [])
         rng.shuffle(attrs)
         names = [n] + ([nm.new("w")] if rng.random() < 0.25 else [])
         return [("var", names, attrs, kind == "parameter")], [], n
     if kind == "type":
         n = nm.new("t")
-        attrs = a + extra(["bind(c)", "abstract"])
+        attrs = a + extra(["bind(c)", "abstract", "extends(c04_base)"])
         rng.shuffle(attrs)
         return [("type", n, attrs, gen_type_body(rng, nm))], [("proc", False, f"impl_{n}")], n
     if kind in ("subroutine", "function"):
@@ -906,6 +1161,22 @@ def gen_wild_case(rng):
 # ---------------------------------------------------------------------------
 
 
+def canon(n):
+    """canonical form of an observed name.  A generic-spec (`operator (+)`, `ASSIGNMENT( = )`) is the same
+    identifier however its tokens are spaced: blanks are not part of the observation.  Ordinary names are left
+    exactly as FORD reports them (lower-cased by the caller) - a blank in one of them is a difference."""
+    return "".join(n.split()) if "(" in n else n
+
+
+def ident(n):
+    """the Fortran identifier a reported name stands for (the property oracle identifies entities by it, so that
+    a name FORD reports with stray characters still meets the accessibility Fortran gives that entity)"""
+    if "(" in n and n.lstrip()[:1].isalpha() and n.lstrip().lower().startswith(("operator", "assignment", "read", "write")):
+        return canon(n)
+    m = re.match(r"\s*(\w+)", n)
+    return m.group(1) if m else n
+
+
 def observe_unit(m):
     """canonical observation of one parsed module / submodule: sorted list of tuples"""
     obs = []
@@ -917,7 +1188,7 @@ def observe_unit(m):
         for c in getattr(t, "local_variables", t.variables):
             obs.append(("C", t.name.lower(), c.name.lower(), c.permission))
         for b in t.boundprocs:
-            obs.append(("N", t.name.lower(), b.name.lower(), b.permission))
+            obs.append(("N", t.name.lower(), canon(b.name.lower()), b.permission))
     for f in m.functions:
         obs.append(("E", "func", f.name.lower(), f.permission, "-"))
     for f in m.subroutines:
@@ -925,7 +1196,7 @@ def observe_unit(m):
     for cat, lst in (("iface", m.interfaces), ("absiface", m.absinterfaces)):
         for i in lst:
             wrapper = hasattr(i, "procedure") and not getattr(i, "generic", False)
-            obs.append(("E", cat, i.name.lower(), i.permission, "w" if wrapper else "-"))
+            obs.append(("E", cat, canon(i.name.lower()), i.permission, "w" if wrapper else "-"))
             if wrapper:
                 if i.procedure.permission != i.permission:
                     dyn_bad.append((cat, i.name.lower(), i.permission, i.procedure.permission))
@@ -933,11 +1204,11 @@ def observe_unit(m):
                 # interface bodies: procedures, shown with their own `permission` on the interface's page and
                 # exported under their own name; `module procedure` references: their stored value is never shown
                 for r in i.routines:
-                    obs.append(("P", i.name.lower(), r.name.lower(), r.permission))
+                    obs.append(("P", canon(i.name.lower()), r.name.lower(), r.permission))
                 for r in i.modprocs:
-                    obs.append(("R", i.name.lower(), r.name.lower(), r.permission))
-    pl = sorted(x.lower() for x in getattr(m, "public_list", []))
-    xp = sorted((tab, k.lower()) for tab, attr in TABS for k in getattr(m, attr, {}))
+                    obs.append(("R", canon(i.name.lower()), r.name.lower(), r.permission))
+    pl = sorted(canon(x.lower()) for x in getattr(m, "public_list", []))
+    xp = sorted((tab, canon(k.lower())) for tab, attr in TABS for k in getattr(m, attr, {}))
     return sorted(obs), pl, dyn_bad, xp
 
 
@@ -946,13 +1217,13 @@ def parse_model(fields):
     for f in fields:
         p = f.split(":")
         if p[0] == "E":
-            obs.append(("E", p[1], p[2], p[3], p[4]))
+            obs.append(("E", p[1], canon(p[2]), p[3], p[4]))
         elif p[0] in ("C", "N", "P", "R"):
-            obs.append((p[0], p[1], p[2], p[3]))
+            obs.append((p[0], canon(p[1]), p[2], p[3]))
         elif p[0] == "L":
-            pl.append(p[1])
+            pl.append(canon(p[1]))
         elif p[0] == "X":
-            xp.append((p[1], p[2]))
+            xp.append((p[1], canon(p[2])))
     return sorted(obs), sorted(pl), sorted(xp)
 
 
@@ -995,6 +1266,22 @@ end module c04probe_2
 """
 
 
+PROBE_GSPEC = """module c04probe_4
+  private
+  public :: operator (+)
+  interface operator(+)
+    module procedure f
+  end interface
+contains
+  function f(a, b) result(r)
+    integer, intent(in) :: a, b
+    integer :: r
+    r = a + b
+  end function f
+end module c04probe_4
+"""
+
+
 def probe_variant(ford, d: Path):
     """Which of the two places where a candidate repair changes the mechanism does the code under test have?
     Decided on the real code (parse only, no correlate):
@@ -1006,6 +1293,8 @@ def probe_variant(ford, d: Path):
         export tables are built ('e') or only after correlate ('')?
       * `private` + `public :: x1` + interface g with the interface body x1: does process_attribs hand the statement
         to the specific procedure ('s') or not ('')?
+      * `private` + `public :: operator (+)` + `interface operator(+)`: is a generic-spec the same key however its
+        tokens are spaced ('g') or only when both are written alike ('')?
     Returns (variant string, problem or None)."""
     import shutil
     import ford.sourceform as sf
@@ -1017,6 +1306,7 @@ def probe_variant(ford, d: Path):
     (src / "p1.f90").write_text(PROBE_SAME)
     (src / "p2.f90").write_text(PROBE_CTOR)
     (src / "p3.f90").write_text(PROBE_SPEC)
+    (src / "p4.f90").write_text(PROBE_GSPEC)
     sf.namelist = sf.NameSelector()
     settings = ProjectSettings(src_dir=[src], display=["public", "private", "protected"], dbg=True,
                                preprocess=False, graph=False, search=False, warn=False)
@@ -1045,6 +1335,11 @@ def probe_variant(ford, d: Path):
         v += "s"
     elif x1 != ["private"]:
         problem = f"probe 3 (`private`, `public :: x1`, interface g with body x1): specific procedure reports {x1}"
+    g4 = [i.permission for i in mods["c04probe_4"].interfaces]
+    if g4 == ["public"]:
+        v += "g"
+    elif g4 != ["private"]:
+        problem = f"probe 4 (`private`, `public :: operator (+)`, `interface operator(+)`): interface reports {g4}"
     return v, problem
 
 
@@ -1060,8 +1355,17 @@ def run_impl(ford, d: Path, cases):
         shutil.rmtree(src)
     src.mkdir(parents=True)
     (src / "mparent.f90").write_text("module mparent\nend module mparent\n")
-    for name, text in cases:
-        (src / f"{name}.f90").write_text(text)
+    # several program units in one file (every third file holds two or three): the state of one unit - default
+    # accessibility, pending access statements - must not reach the next one
+    group = []
+    for k, (name, text) in enumerate(cases):
+        group.append((name, text))
+        if k % 7 in (0, 1, 3, 4) and k + 1 < len(cases):
+            continue
+        (src / f"{group[0][0]}.f90").write_text("\n".join(t for _, t in group))
+        group = []
+    if group:
+        (src / f"{group[0][0]}.f90").write_text("\n".join(t for _, t in group))
     sf.namelist = sf.NameSelector()
     settings = ProjectSettings(src_dir=[src], display=["public", "private", "protected"], dbg=True,
                                preprocess=False, graph=False, search=False, warn=False)
@@ -1108,11 +1412,14 @@ def run(tier: str, seed: int, replay: str | None = None) -> int:
         import json
         data = json.loads(Path(replay).read_text())
         cases = [[c.get("stream", "replay"), tuple(c["cell"]) if c.get("cell") else None, c["scope"],
-                  _untuple(c["stmts"])] for c in data.get("cases", []) + data.get("first_disagreements", []) if "stmts" in c]
+                  _untuple(c["stmts"])] + ([c["spell"]] if c.get("spell") and len(c["spell"]) == len(c["stmts"]) else [])
+                 for c in data.get("cases", []) + data.get("first_disagreements", []) if "stmts" in c]
     for k, c in enumerate(cases):
         name = f"u{k}"
-        c.append(render(rng, c[2], name, c[3]))
+        spell = c.pop() if len(c) > 4 else decorate(rng, c[3])
+        c.append(render(rng, c[2], name, c[3], spell=spell))
         c.append(name)
+        c.append(spell)
 
     # which variant of the mechanism does the code under test have? (probe of the real code)
     global VARIANT
@@ -1129,9 +1436,37 @@ def run(tier: str, seed: int, replay: str | None = None) -> int:
                        f"{'reached' if 's' in VARIANT else 'not reached'} by the access statement")
 
     # model
-    reqs = [["c04.run", VARIANT, c[2]] + [enc_stmt(s) for s in model_view(c[3])] for c in cases]
+    reqs = [["c04.run", VARIANT, c[2]] + [enc_stmt(s, q) for s, q in zip(model_view(c[3]), c[6])] for c in cases]
     model = drv.batch(reqs)
 
+    hist_spell: dict[str, int] = {}
+
+    def count(k, on=True):
+        if on:
+            hist_spell[k] = hist_spell.get(k, 0) + 1
+
+    for c in cases:
+        for st, q in zip(c[3], c[6]):
+            if st[0] == "var":
+                for dcl in split_top(q[1]):
+                    count("entity-decls")
+                    count("entity-decl: blank between name and array-spec / coarray-spec / char-length",
+                          re.search(r"\w\s+[(\[*]", dcl) is not None)
+                    count("entity-decl: array-spec", re.match(r"\s*\w+\s*\(", dcl) is not None)
+                    count("entity-decl: coarray-spec", "[" in dcl.split("=")[0])
+                    count("entity-decl: char-length", "*" in dcl.split("=")[0])
+                    count("entity-decl: initialisation", "=" in dcl)
+                    count("entity-decl: name not in lower case", re.match(r"\s*\w+", dcl).group(0).strip() !=
+                          re.match(r"\s*\w+", dcl).group(0).strip().lower())
+                count("entity list continued on the next line", "&" in q[1])
+            elif st[0] == "access":
+                count("attribute statements")
+                count("access-statement name list continued on the next line", "&" in q)
+                count("access-statement name with a blank before the comma", re.search(r"\s,", q) is not None)
+                count("access statement naming a generic-spec with blanks between its tokens",
+                      any("(" in t and canon(t.strip()) != t.strip() for t in split_top(q)))
+            elif st[0] == "iface" and st[1] == "generic" and "(" in q:
+                count("interface statement with blanks inside the generic-spec", canon(q) != q)
     hist_cells: dict[str, int] = {}
     hist_kinds: dict[str, int] = {}
     hist_legal: dict[str, int] = {}
@@ -1146,8 +1481,8 @@ def run(tier: str, seed: int, replay: str | None = None) -> int:
             chunk = cases[lo:lo + CH]
             units, log = run_impl(ford, d, [(c[5], c[4]) for c in chunk])
             for c, mo in zip(chunk, model[lo:lo + CH]):
-                stream, cell, scope, stmts, text, name = c
-                case = {"stream": stream, "cell": cell, "scope": scope, "stmts": stmts, "source": text}
+                stream, cell, scope, stmts, text, name, spell = c
+                case = {"stream": stream, "cell": cell, "scope": scope, "stmts": stmts, "spell": spell, "source": text}
                 if mo[0] != "ok":
                     rep.tie_broken(f"driver rejected {name}: {mo}", case)
                     continue
@@ -1191,13 +1526,13 @@ def run(tier: str, seed: int, replay: str | None = None) -> int:
                     got = {}
                     for o in iobs:
                         if o[0] == "E":
-                            got[(o[1], o[2])] = o[3]
+                            got[(o[1], ident(o[2]))] = o[3]
                         elif o[0] == "C":
-                            got[("comp", o[1], o[2])] = o[3]
+                            got[("comp", ident(o[1]), ident(o[2]))] = o[3]
                         elif o[0] == "N":
-                            got[("bind", o[1], o[2])] = o[3]
+                            got[("bind", ident(o[1]), ident(o[2]))] = o[3]
                         elif o[0] == "P":
-                            got[("spec", o[1], o[2])] = o[3]
+                            got[("spec", ident(o[1]), ident(o[2]))] = o[3]
                     n_entities += len(exp)
                     n_specifics += sum(1 for k in exp if k[0] == "spec")
                     if len(samples) < 3 and cell and cell[0].endswith("late") and cell[3] in ("type", "variable", "generic"):
@@ -1206,20 +1541,21 @@ def run(tier: str, seed: int, replay: str | None = None) -> int:
                         e, g = exp.get(key), got.get(key)
                         if e != g:
                             n_oracle_fail += 1
-                            fid = classify(scope, model_view(stmts), key, e, g) if e and g else None
+                            fid = classify(scope, model_view(stmts), key, e, g, spell) if e and g else None
                             rep.failing_input(dict(case, entity=list(key), expected=e, observed=g,
                                                    why=f"{key}: Fortran says {e}, FORD says {g}"), fid)
                     # what the module hands to other scopes by use association
                     if scope == "m":
                         xexp, xkeys = spec_exports(exp)
                         n_exports += len(xkeys)
-                        for tn in sorted(set(xexp) | set(ixp)):
-                            if (tn in xexp) != (tn in ixp):
+                        ixp_id = sorted({(t_, ident(k_)) for t_, k_ in ixp})
+                        for tn in sorted(set(xexp) | set(ixp_id)):
+                            if (tn in xexp) != (tn in ixp_id):
                                 n_oracle_fail += 1
                                 key = xkeys.get(tn)
-                                fid = classify_export(scope, model_view(stmts), tn[0], tn[1], key, exp, got)
+                                fid = classify_export(scope, model_view(stmts), tn[0], tn[1], key, exp, got, spell)
                                 e = "accessible" if tn in xexp else "not accessible"
-                                g = "listed" if tn in ixp else "not listed"
+                                g = "listed" if tn in ixp_id else "not listed"
                                 rep.failing_input(dict(case, entity=list(key) if key else list(tn), export_table="pub_" + tn[0],
                                                        expected=e, observed=g,
                                                        why=f"pub_{tn[0]}[{tn[1]}]: Fortran says {e} by use association, "
@@ -1276,7 +1612,10 @@ def run(tier: str, seed: int, replay: str | None = None) -> int:
         variant_of_code_under_test={"probe": VARIANT,
                                     "attr_dict_entry_deleted": "after the loop" if "a" in VARIANT else "per entity",
                                     "constructor_takes_type_permission": "in _cleanup" if "e" in VARIANT else "in correlate",
-                                    "loop_over_interface_bodies": "s" in VARIANT},
+                                    "loop_over_interface_bodies": "s" in VARIANT,
+                                    "generic_spec_key": "blanks removed" if "g" in VARIANT else "as written"},
+        spelling_histogram=dict(sorted(hist_spell.items())),
+        program_units_per_file="1, 2 or 3 (pattern 3-2-1-1 over the units of a project)",
         legal_programs=n_legal,
         lean_spec_vs_python_oracle=len(spec_reqs),
         lean_spec_disagreements=n_spec_bad,
@@ -1291,11 +1630,17 @@ def run(tier: str, seed: int, replay: str | None = None) -> int:
         "statement recognition (regexes of FortranContainer.__init__, ATTRIB_RE, ATTRIBSPLIT_RE) is on the implementation "
         "side only; it is exercised by random case / spacing / '::' variants of every rendered statement",
         "folding of accessibility and PROTECTED into FORD's single permission value: private > protected > public",
-        "names are compared lower-cased; `operator (+)` written with a blank is not generated",
+        "names are compared lower-cased; a generic-spec is compared with its blanks removed (`operator (+)`); an "
+        "ordinary name is compared exactly as FORD reports it (a stray blank in it is a difference) while the property "
+        "oracle identifies the entity by the identifier the reported name starts with",
+        "the Lean model receives the entity lists / name lists / generic-specs as they are written, after the two "
+        "steps of the reader that precede statement recognition: continuation lines joined, character literals "
+        "replaced by numbered placeholders",
         "the stored permission of a `module procedure x` reference inside a generic interface (never displayed, never "
         "exported) has no specification; it is compared with the model only",
-        "the variant of the model (attr_dict deletion order, place of the constructor step) is chosen by probing the "
-        "code under test with two fixed modules; a probe result that fits neither variant is a broken tie",
+        "the variant of the model (attr_dict deletion order, place of the constructor step, loop over interface "
+        "bodies, keying of generic-specs) is chosen by probing the code under test with four fixed modules; a probe "
+        "result that fits no variant is a broken tie",
     ]
     return rep.finish(lean)
 
